@@ -40,3 +40,31 @@ func H_C16_SetNatReduces() {
 	vsym.Assert(vsym.BytesEq(gb[32-len(residue.Bytes()):], residue.Bytes()) || len(residue.Bytes()) > 32, "encoding of SetNat(x) is the big-endian residue")
 	vsym.Reach("setnat-checked")
 }
+
+// H_C16_PointEqual: the real Secp256k1Point.Equal on concrete points k*G (lattice of k incl. 1, 2, q-1 and mid-range
+// values): a point equals itself reached through a different computation (so a different projective representation),
+// never equals its negation (same X, opposite Y) or a different point, and the identity equals only the identity. Every
+// share / commitment comparison of the protocols (VSS check, decommitted points, Delta = delta*G) ends in this function.
+func H_C16_PointEqual() {
+	group := Secp256k1{}
+	one := group.NewScalar().SetNat(new(saferith.Nat).SetUint64(1))
+	ks := []Scalar{one, group.NewScalar().SetNat(new(saferith.Nat).SetUint64(2)), group.NewScalar().Sub(one),
+		group.NewScalar().SetNat(new(saferith.Nat).SetUint64(0xdeadbeefcafe)), group.NewScalar().SetNat(new(saferith.Nat).SetBytes(pow2Bytes(200)))}
+	k := ks[vsym.Choose("k", len(ks))]
+	P := k.ActOnBase()
+	// the same point by another route: (k-1)*G + G
+	km1 := group.NewScalar().Set(k).Sub(one)
+	P2 := km1.ActOnBase().Add(one.ActOnBase())
+	vsym.Assert(P.Equal(P2) && P2.Equal(P), "k*G equals (k-1)*G + G")
+	neg := P.Negate()
+	vsym.Assert(!P.Equal(neg) && !neg.Equal(P), "a point never equals its negation")
+	vsym.Assert(neg.Equal(group.NewScalar().Set(k).Negate().ActOnBase()), "-(k*G) equals (-k)*G")
+	other := group.NewScalar().Set(k).Add(one).ActOnBase()
+	vsym.Assert(!P.Equal(other), "k*G differs from (k+1)*G")
+	id := group.NewPoint()
+	vsym.Assert(!P.Equal(id) && !id.Equal(P) && id.Equal(P.Add(neg)), "the identity equals only the identity")
+	pb, _ := P.MarshalBinary()
+	nb, _ := neg.MarshalBinary()
+	vsym.Assert(!vsym.BytesEq(pb, nb), "a point and its negation have different encodings")
+	vsym.Reach("pointequal-checked")
+}
